@@ -30,3 +30,27 @@ def replay(gen, config, prop="C06", **_):
     lines += [f"FAILED [{k}] {v['summary'][:500]}" for k, v in rec.failures.items()]
     return True, "\n".join(lines)
   return False, "\n".join(lines + [f"all contracts of {prop} hold on this document and configuration"])
+
+
+def default_end(begin, config, **_):
+  from fractions import Fraction
+  import ttconv.model as m
+  import rtc.cues_common as P
+  from specs import cues as C
+  logging.disable(logging.CRITICAL)
+  b = Fraction(begin)
+  doc = m.ContentDocument()
+  body, div, p, span = m.Body(doc), m.Div(doc), m.P(doc), m.Span(doc)
+  p.set_begin(b)
+  span.push_child(m.Text(doc, "x"))
+  p.push_child(span)
+  div.push_child(p)
+  body.push_child(div)
+  doc.set_body(body)
+  text, err = P.run_writer(doc, config)
+  if err is not None:
+    return True, f"one paragraph 'x' beginning at {b} s without end: {config} writer raised {err!r}"
+  cues, _, _ = P.read_output(config, text)
+  got = [(c["begin"], c["end"], c["text"]) for c in cues]
+  want = [(C.to_ms(b, mode), C.to_ms(b, mode) + 10000, "x") for mode in ("even", "up")]
+  return not any(got == [w] for w in want), f"one paragraph 'x' beginning at {b} s without end: {config} output {text!r}; required cue {want[0]}"
